@@ -15,6 +15,7 @@ import (
 
 	"github.com/free5gc/chf/cdr/cdrFile"
 	"verifharness/h"
+	"verifharness/oracle"
 )
 
 // Blob is a byte string given either literally or as (length, seed).
@@ -48,7 +49,7 @@ func (b Blob) Len() int {
 	return len(b.Lit)
 }
 
-type TS struct{ Mo, D, H, Mi, S, HD, MD uint8 }
+type TS = oracle.TS
 
 type Rec struct {
 	Rel, Ver, Fmt, TsN, Ext uint8
@@ -312,84 +313,6 @@ func judgeC14(c FileCase) *h.Verdict {
 // ---------------------------------------------------------------------
 // C15: independent TS 32.297 clause 6.1 reader and byte-layout assertions.
 
-type specFile struct {
-	FileLength, HeaderLength   uint32
-	HiRel, HiVer, LoRel, LoVer uint8
-	Open, Last                 TS
-	NCdr, Seq                  uint32
-	Reason                     uint8
-	IP                         [20]byte
-	Lost                       uint8
-	RF, PE                     []byte
-	HiExt, LoExt               uint8
-	Recs                       []specRec
-	Consumed                   int
-}
-type specRec struct {
-	Len                     uint16
-	Rel, Ver, Fmt, TsN, Ext uint8
-	Payload                 []byte
-}
-
-func specTS(w uint32) TS {
-	return TS{Mo: uint8(w >> 28), D: uint8(w >> 23 & 31), H: uint8(w >> 18 & 31), Mi: uint8(w >> 12 & 63),
-		S: uint8(w >> 11 & 1), HD: uint8(w >> 6 & 31), MD: uint8(w & 63)}
-}
-
-// readSpec parses per TS 32.297 6.1.1 (file header) and 6.1.2 (CDR header).
-func readSpec(d []byte) (f specFile, err error) {
-	defer func() {
-		if e := recover(); e != nil {
-			err = fmt.Errorf("reader ran off the file: %v", e)
-		}
-	}()
-	be := binary.BigEndian
-	f.FileLength, f.HeaderLength = be.Uint32(d[0:]), be.Uint32(d[4:])
-	f.HiRel, f.HiVer = d[8]>>5, d[8]&0x1f
-	f.LoRel, f.LoVer = d[9]>>5, d[9]&0x1f
-	f.Open, f.Last = specTS(be.Uint32(d[10:])), specTS(be.Uint32(d[14:]))
-	f.NCdr, f.Seq = be.Uint32(d[18:]), be.Uint32(d[22:])
-	f.Reason = d[26]
-	copy(f.IP[:], d[27:47])
-	f.Lost = d[47]
-	p := 48
-	l := int(be.Uint16(d[p:]))
-	p += 2
-	f.RF = d[p : p+l]
-	p += l
-	l = int(be.Uint16(d[p:]))
-	p += 2
-	f.PE = d[p : p+l]
-	p += l
-	if f.HiRel == 7 {
-		f.HiExt = d[p]
-		p++
-	}
-	if f.LoRel == 7 {
-		f.LoExt = d[p]
-		p++
-	}
-	if uint32(p) != f.HeaderLength {
-		return f, fmt.Errorf("HeaderLength field %d but header occupies %d octets", f.HeaderLength, p)
-	}
-	for i := uint32(0); i < f.NCdr; i++ {
-		var r specRec
-		r.Len = be.Uint16(d[p:])
-		r.Rel, r.Ver = d[p+2]>>5, d[p+2]&0x1f
-		r.Fmt, r.TsN = d[p+3]>>5, d[p+3]&0x1f
-		p += 4
-		if r.Rel == 7 {
-			r.Ext = d[p]
-			p++
-		}
-		r.Payload = d[p : p+int(r.Len)]
-		p += int(r.Len)
-		f.Recs = append(f.Recs, r)
-	}
-	f.Consumed = p
-	return f, nil
-}
-
 func judgeC15(c FileCase) *h.Verdict {
 	v := &h.Verdict{}
 	c.classify(v)
@@ -474,7 +397,7 @@ func judgeC15(c FileCase) *h.Verdict {
 		return v
 	}
 	// (2) the independent reader recovers every field and consumes the file.
-	s, err := readSpec(d)
+	s, err := oracle.ReadSpec(d)
 	if err != nil {
 		return v.Failf("reader/error", "independent reader: %v", err)
 	}
